@@ -4,10 +4,12 @@ CONSTANT MaxH = 9
 CONSTANT Kernels = {1, 2, 3, 5}
 CONSTANT Strides = {1, 2}
 CONSTANT Dilations = {1}
+CONSTANT EmitCases = TRUE
 CONSTANT Shrink = 0
 CONSTANT Mutant = "none"
 INVARIANT TypeOK
 INVARIANT Candidates
+INVARIANT Cases
 INVARIANT BoxFitsBuffer
 INVARIANT Progress
 CHECK_DEADLOCK FALSE
